@@ -55,6 +55,7 @@ type progCfg struct {
 	nOps      int
 	endings   []int // allowed endings
 	checkInTx bool
+	concrete  bool // page contents are concrete sequence numbers instead of solver variables
 }
 
 const (
@@ -104,7 +105,7 @@ type progState struct {
 }
 
 func verifNewProg(cfg *progCfg) *progState {
-	capacity := 160 * 1024
+	capacity := 96 * 1024
 	disk := newMemFile(capacity)
 	f, err := openWith(disk, cfg.options())
 	verifAssert(err == nil, "creating a file on an empty disk succeeds")
@@ -113,6 +114,15 @@ func verifNewProg(cfg *progCfg) *progState {
 }
 
 func (s *progState) nextSeq() uint8 { s.seq++; return s.seq }
+
+// content returns the marker bytes of the next page write.
+func (s *progState) content() (uint8, uint8) {
+	if s.cfg.concrete {
+		q := s.nextSeq()
+		return q ^ 0x5a, q
+	}
+	return verifU8("b"), s.nextSeq()
+}
 
 // internalPages reports whether id is used by the committed state's metadata.
 func (s *progState) isInternal(id PageID) bool {
@@ -170,7 +180,7 @@ func (s *progState) step(tx *Tx, w *refModel) {
 			return
 		}
 		s.checkOwnership(w, p.ID())
-		b0, b1 := verifU8("b"), s.nextSeq()
+		b0, b1 := s.content()
 		verifAssert(p.SetBytes(verifBuf(b0, b1, b1)) == nil, "SetBytes on a fresh page succeeds")
 		w.pages = append(w.pages, refPage{id: p.ID(), b0: b0, b1: b1, last: b1, dirty: true, isNew: true})
 	case opAllocRaw:
@@ -193,7 +203,7 @@ func (s *progState) step(tx *Tx, w *refModel) {
 		verifAssert(ps[0].ID() != ps[1].ID(), "AllocN returns distinct pages")
 		for _, p := range ps {
 			s.checkOwnership(w, p.ID())
-			b0, b1 := verifU8("b"), s.nextSeq()
+			b0, b1 := s.content()
 			verifAssert(p.SetBytes(verifBuf(b0, b1, b1)) == nil, "SetBytes on a fresh page succeeds")
 			w.pages = append(w.pages, refPage{id: p.ID(), b0: b0, b1: b1, last: b1, dirty: true, isNew: true})
 		}
@@ -205,7 +215,7 @@ func (s *progState) step(tx *Tx, w *refModel) {
 		rp := &w.pages[i]
 		p, err := tx.Page(rp.id)
 		verifAssert(err == nil, "a live page can be accessed")
-		b0, b1 := verifU8("b"), s.nextSeq()
+		b0, b1 := s.content()
 		var werr error
 		switch op {
 		case opOverwrite:
